@@ -119,6 +119,10 @@ func (o VerdictOracle) AfterStep(m *VM, rec *Rec) {
 				fmt.Sprintf("op %d via %s: %s, yet Authorize returned %q (%s)", rec.I, v.Via, exceeded, v.Class, v.ErrText))
 		}
 	}
+	if exceeded != "" && v.Second != "" && !strings.HasPrefix(v.Second, "limit") && !clockMoved {
+		m.Violate("C11", "S5-limit-not-enforced", "limit exceeded, yet a repeated Authorize on the same authorizer did not fail with a limit error",
+			fmt.Sprintf("op %d via %s: %s; first Authorize %q, repeated Authorize %q", rec.I, v.Via, exceeded, v.Class, v.Second))
+	}
 	if strings.HasPrefix(v.Class, "limit") {
 		switch v.Class {
 		case "limit:facts":
